@@ -5,6 +5,7 @@ import (
 	"errors"
 	"fmt"
 	"io"
+	"reflect"
 	"strconv"
 	"strings"
 	"time"
@@ -317,6 +318,43 @@ func extraIdGen(ctx *core.Ctx) (int, string, []core.ExtraFailure) {
 			prev = cur
 		}
 	}
+	// crypto/rand FAILING (math/rand fallback path): many calls with few random bits, so that
+	// every value of the random part — in particular a value one past the top — turns up;
+	// the random part must not spill into the time field: id >> randBit must be a
+	// millisecond count read between `before` and `after` (sound whatever the scheduling).
+	fallback, spilled := 0, 0
+	for _, rb := range []int{2, 3, 4, 8, 18} {
+		g := randz.NewIdGenerator(time.Now().Add(-time.Hour), rb)
+		start := reflect.ValueOf(g).FieldByName("startTime")
+		_ = start
+		st := time.Now().Add(-2 * time.Hour)
+		g = randz.NewIdGenerator(st, rb)
+		n := 3000
+		if rb > 4 {
+			n = 300
+		}
+		seen := map[int64]bool{}
+		for i := 0; i < n*ctx.Escalate && spilled < 3; i++ {
+			srand.Reader = &scriptedReader{err: errors.New("scripted failure")}
+			before := time.Since(st).Milliseconds()
+			id := int64(g.Generate())
+			after := time.Since(st).Milliseconds()
+			srand.Reader = saved
+			evals++
+			fallback++
+			t := id >> uint(rb)
+			seen[id&(1<<uint(rb)-1)] = true
+			if id < 0 || t < before || t > after {
+				spilled++
+				fails = append(fails, core.ExtraFailure{Failure: core.Failure{Key: "id-layout", Desc: fmt.Sprintf("crypto/rand failing, NewIdGenerator(_, %d).Generate() = %d: time field %d is not a millisecond count in [%d,%d] — the fallback random part reached 2^randBit or beyond", rb, id, t, before, after)},
+					Payload: map[string]any{"randBit": rb, "elapsed_ms": []int64{before, after}, "id": id, "crypto_rand": "failing"}})
+			}
+		}
+		if rb <= 4 && len(seen) != 1<<uint(rb) && spilled == 0 {
+			fails = append(fails, core.ExtraFailure{Failure: core.Failure{Key: "id-fallback-range", Desc: fmt.Sprintf("crypto/rand failing, randBit %d: only %d of %d random parts seen in %d calls", rb, len(seen), 1<<uint(rb), n)}, Payload: map[string]any{"randBit": rb}, NoInput: true})
+		}
+	}
+	_ = fallback
 	// less-used entry points: SetIdGeneratorStartTime + Id() (18 random bits), ID.Int64
 	func() {
 		defer randz.SetIdGeneratorStartTime(time.Date(2023, 2, 27, 0, 30, 0, 0, time.UTC))
@@ -334,7 +372,7 @@ func extraIdGen(ctx *core.Ctx) (int, string, []core.ExtraFailure) {
 	if d < 0 {
 		fails = append(fails, core.ExtraFailure{Failure: core.Failure{Key: "id-layout", Desc: fmt.Sprintf("randz.Id() = %d is negative", d)}, Payload: map[string]any{"id": int64(d)}})
 	}
-	return evals, fmt.Sprintf("%d Generate() calls with the real clock (offsets incl. 2^41 ms wrap and a future start time), %d tied to the Lean compose via the oracle, %d increasing-ID checks", len(all), tied, mono), fails
+	return evals, fmt.Sprintf("%d Generate() calls with the real clock (offsets incl. 2^41 ms wrap and a future start time), %d tied to the Lean compose via the oracle, %d increasing-ID checks; %d calls with crypto/rand failing (randBit 2,3,4,8,18): time field within the bracket every time", len(all), tied, mono, fallback), fails
 }
 
 // extraStrReal: StrGenerator over the package's real LockRandSource and the default
